@@ -144,7 +144,7 @@ theorem setter_same_rule (st : ExpState) (w : Which) (v : ObjList) :
         ∀ s ∈ st.schedules, WellFormed (st.lists.set w v) s) ∨
     ((∃ e, step tables st (.setList w v) = .error e) ∧
         ¬ ∀ s ∈ st.schedules, WellFormed (st.lists.set w v) s) := by
-  simp only [step]
+  rw [step_setList]
   cases h : validateSchedules tables (st.lists.set w v) st.schedules with
   | ok u => exact Or.inl ⟨rfl, (accept_iff_wellformed _ _).1 (by rw [h])⟩
   | error e =>
@@ -393,5 +393,66 @@ example : calcProbDist ⟨⟨[some 1, none], [some 2, some 3], [some 1], [some 2
 example : calcProbDist ⟨⟨[some 1, none], [some 2], [], []⟩, [.items [Item.mk "state" 1, Item.mk "povm" 0]]⟩
     (.int 0) = .error (.isNone 0) := by decide
 
+
+
+/-! ## generated setter tables, copy, index safety -/
+
+/-- **(T) `setters_eq`** — the `objdict` each list setter validates against, and the list it assigns, as generated from
+the source: the new value under its own key, the experiment's current lists under the other three keys. A stale
+entry (e.g. `povm=self._povms` in the `povms` setter) or a wrong assignment target re-opens this. -/
+theorem setters_eq :
+    QGen.C20.setterDicts = [[4, 1, 2, 3], [0, 4, 2, 3], [0, 1, 4, 3], [0, 1, 2, 4]] ∧
+    QGen.C20.setterAssigns = [0, 1, 2, 3] ∧
+    ∀ (L : Lists) (w : Which) (v : ObjList), setterLists L w v = L.set w v ∧ setterAssign L w v = L.set w v :=
+  ⟨rfl, rfl, fun L w v => ⟨setterLists_eq L w v, setterAssign_eq L w v⟩⟩
+
+/-- **C20.g `copy_same`** — `Experiment.copy()` re-validates through the constructor: on every reachable
+(well-formed) state it succeeds and yields the same lists and schedules. -/
+theorem copy_same (st : ExpState) (h : ∀ s ∈ st.schedules, WellFormed st.lists s) :
+    copyExp tables st = .ok st := by
+  simp only [copyExp, construct, (accept_iff_wellformed st.lists st.schedules).2 h]
+
+example : copyExp tables ⟨⟨[none], [none, none], [], []⟩, [.items [Item.mk "state" 0, Item.mk "povm" 1]]⟩ =
+    .ok ⟨⟨[none], [none, none], [], []⟩, [.items [Item.mk "state" 0, Item.mk "povm" 1]]⟩ := by decide
+
+/-- **C20.h `accepted_indices_in_range`** — acceptance ⇒ index safety, about the generated tables: every item of every
+accepted schedule is a `(kind, index)` pair whose kind names one of the four lists and whose index addresses an
+existing entry of that list (`0 ≤ index < len`), so the Python look-up `key_map[kind][index]` is defined (and is
+not a negative-index wrap-around). -/
+theorem accepted_indices_in_range (L : Lists) (ss : List Schedule) (h : validateSchedules tables L ss = .ok ()) :
+    ∀ s ∈ ss, ∃ ps : List (String × Int), s = .items (ps.map fun p => Item.mk p.1 p.2) ∧
+      ∀ p ∈ ps, ∃ l o, L.get? p.1 = some l ∧ 0 ≤ p.2 ∧ p.2 < (l.length : Int) ∧
+        pyIndex l p.2 = some o ∧ l[p.2.toNat]? = some o := by
+  intro s hs
+  obtain ⟨ps, h1, h2, _⟩ := (accept_iff_wellformed L ss).1 h s hs
+  refine ⟨ps, h1, fun p hp => ?_⟩
+  obtain ⟨l, hl, h0, hlt⟩ := inRange_get L p (h2 p hp)
+  obtain ⟨o, ho, ho'⟩ := pyIndex_inRange l p.2 h0 hlt
+  exact ⟨l, o, hl, h0, hlt, ho, ho'⟩
+
+/-- the same for the four tomography constructors, w.r.t. the lists they hand to `Experiment` -/
+theorem tomo_accepted_indices_in_range (c : Cls) (nS nP : Nat) (ss : List Schedule)
+    (h : tomoCtor tables c nS nP (.list ss) = .ok ss) :
+    ∀ s ∈ ss, ∃ ps : List (String × Int), s = .items (ps.map fun p => Item.mk p.1 p.2) ∧
+      ∀ p ∈ ps, ∃ l, (tomoLists c.spec nS nP).get? p.1 = some l ∧ 0 ≤ p.2 ∧ p.2 < (l.length : Int) := by
+  intro s hs
+  obtain ⟨ps, h1, ⟨h2, _⟩, _⟩ := (tomoCtor_ok_iff' c nS nP ss).1 h s hs
+  exact ⟨ps, h1, fun p hp => inRange_get _ p (h2 p hp)⟩
+
+/-- **C20.h' `accepted_lookup_total`** — consequently the object look-ups of `calc_prob_dist` on an accepted schedule
+never raise `IndexError` / `KeyError` / `TypeError`: they deliver every object, or stop with the "is None" error at a
+`None` placeholder inside the schedule. -/
+theorem accepted_lookup_total (L : Lists) (s : Schedule) (h : WellFormed L s) :
+    ∃ its, s = .items its ∧
+      ((∃ ts, lookupTargets L its 0 = .ok ts ∧ ts.length = its.length) ∨
+       (∃ k, lookupTargets L its 0 = .error (.isNone k) ∧ k < its.length)) := by
+  obtain ⟨ps, rfl, h2, _⟩ := h
+  refine ⟨_, rfl, ?_⟩
+  rcases lookupTargets_total L ps 0 h2 with ⟨ts, g1, g2⟩ | ⟨k, g1, _, g3⟩
+  · exact Or.inl ⟨ts, g1, by simp [g2]⟩
+  · exact Or.inr ⟨k, g1, by simpa using g3⟩
+
+example : validateSchedules tables ⟨[none, some 1], [some 2], [some 1], []⟩
+    [.items [Item.mk "state" 1, Item.mk "gate" 0, Item.mk "povm" 0]] = .ok () := by decide
 
 end QM.C20
